@@ -90,7 +90,7 @@ def enumerate_cases(tier):
                    "time": {"t0": t0, "t1": t0 + (n + rnd.choice([0.0, 0.4])) * dt, "dt": dt, "tdtype": "float64"},
                    "outs": [rnd.uniform(0.05, 0.45), rnd.uniform(0.55, 0.95)], "entropy": rnd.randrange(2 ** 31 - 2),
                    "adaptive": adaptive, "adjoint_kw": rnd.choice(["tols", "tols+adaptive", "adaptive", "options", None]),
-                   "y0_grad": rnd.random() < 0.5}
+                   "y0_grad": rnd.random() < 0.5, "float32_state": rnd.random() < 0.35}
     for idx, pair in enumerate(admissible_pairs()):
         rnd = random.Random(seed * 7919 + idx)
         fams = FAMILY_FOR[pair["noise_type"]]
@@ -120,7 +120,9 @@ def _forward_case(draw, tier):
             # keyword arguments that only concern the backward solve (drawn; None = leave at default): they must not
             # influence the forward values
             "adjoint_kw": draw(st.sampled_from([None, None, "tols", "adaptive", "tols+adaptive", "options"])),
-            "y0_grad": draw(st.booleans())}
+            "y0_grad": draw(st.booleans()),
+            # single-precision state, parameters and Brownian motion with the (tensor) times in double precision
+            "float32_state": draw(st.sampled_from([False, False, True]))}
 
 
 @st.composite
@@ -157,6 +159,8 @@ def run_case(case):
 def _run_forward(case):
     import torchsde
     spec, combo, tm = case["spec"], case["combo"], case["time"]
+    if case.get("float32_state"):
+        spec = dict(spec, dtype="float32")
     sde = sdes.build_generic(spec)
     y0 = sdes.y0_for(spec)
     vals = sorted({tm["t0"], tm["t1"]} | {tm["t0"] + (tm["t1"] - tm["t0"]) * f for f in case["outs"]})
@@ -192,7 +196,7 @@ def _run_forward(case):
                                              f"{float((outs[0] - outs[1]).abs().max()):.3e}", sig)
     steps = (tm["t1"] - tm["t0"]) / tm["dt"]
     return Result(nontrivial=steps >= 3, labels=["kind=forward", solve.combo_label(combo),
-                                                 "adaptive" if case["adaptive"] else "fixed", f"adjoint_kwargs={ak or 'default'}",
+                                                 "adaptive" if case["adaptive"] else "fixed", f"adjoint_kwargs={ak or 'default'}", f"state={spec['dtype']}/ts=float64",
                                                  "with_graph" if case.get("y0_grad") else "no_grad"],
                   checks=1, fail=fail)
 
